@@ -333,6 +333,30 @@ def ambToJson (etas : List Rat) (x : MC.Input) (R : Nat → Nat → List Val) : 
               | some q => ratToJson q | none => Json.null) v)]
   | _, _, _ => Json.null
 
+def pairGridToJson (g : Grid (Val × Val)) : Json × Json :=
+  (gridToJson (fun p => valToJson p.1) g, gridToJson (fun p => valToJson p.2) g)
+
+def optRat : Option Rat → Json
+  | some q => ratToJson q
+  | none => Json.null
+
+def riskToJson (etas : List Rat) (x : MC.Input) (R : Nat → Nat → List Val) : Json :=
+  let v := volumeOf x.L.rows x.L.cols R
+  match riskOf etas x R, Confidence.globalMin v, Confidence.globalMax v with
+  | some g, some mn, some mx =>
+    let (a, b) := pairGridToJson g
+    mkObj [("max", a), ("min", b), ("margin", gridToJson (fun cv => optRat (Driver.C12.ambMargin mn mx etas cv)) v)]
+  | _, _, _ => Json.null
+
+def boundsToJson (thr : Rat) (disps : List Rat) (x : MC.Input) (R : Nat → Nat → List Val) : Json :=
+  let v := volumeOf x.L.rows x.L.cols R
+  match boundsOf thr disps x R, Confidence.globalMin v, Confidence.globalMax v with
+  | some g, some mn, some mx =>
+    let (a, b) := pairGridToJson g
+    mkObj [("inf", a), ("sup", b),
+           ("margin", gridToJson (fun cv => optRat (Driver.C12.boundsMargin mn mx (Confidence.typeFactor false) thr cv)) v)]
+  | _, _, _ => Json.null
+
 def xrunOp (j : Json) : Except String Json := do
   let C ← cfgOfJson j
   let spots ← spotsOfJson j
@@ -350,6 +374,8 @@ def xrunOp (j : Json) : Except String Json := do
     | v => throw s!"unknown filling {v.compress}"
   let F : FillCfg := { meth, v := Driver.C14.variantOfJson (fieldD j "fill_cfg" (Json.mkObj [])), off := C.CP.offset }
   let etas ← listOfJson ratOfJson (fieldD j "etas" (Json.arr #[]))
+  let confMethod ← strOfJson (fieldD j "conf_method" (Json.str "ambiguity"))
+  let confThr ← ratOfJson (fieldD j "conf_threshold" (Json.str "9/10"))
   let R := look (rowsTab C.K C.G x) []
   let R' := look (rowsTab C.K' C.G xs) []
   let start (K : RunCfg) (y : MC.Input) (Q : Nat → Nat → List Val) : Maps :=
@@ -383,7 +409,9 @@ def xrunOp (j : Json) : Except String Json := do
            ("wta", valGrid rows cols m.disp),
            ("tail", Json.arr (st.map (mapsToJson rows cols)).toArray),
            ("cc", cc), ("fill", fill),
-           ("amb", if etas.isEmpty then Json.null else ambToJson etas y Q)]
+           ("amb", if etas.isEmpty || confMethod != "ambiguity" then Json.null else ambToJson etas y Q),
+           ("risk", if etas.isEmpty || confMethod != "risk" then Json.null else riskToJson etas y Q),
+           ("bounds", if confMethod != "interval_bounds" then Json.null else boundsToJson confThr K.disps y Q)]
   return mkObj [
     ("gmin", intToJson (gminOf x)), ("gmax", intToJson (gmaxOf x)),
     ("spot_ok", Json.bool spotOk), ("spots", natToJson spots.length),
